@@ -183,10 +183,30 @@ func fetcher(u string) (utils.RemoteRessource, error) {
 	if i := strings.IndexAny(name, "?#"); i >= 0 {
 		name = name[:i]
 	}
+	if b, ok := docFiles[name]; ok { // files of the document under test
+		mime := ""
+		switch {
+		case strings.HasSuffix(name, ".svg"):
+			mime = "image/svg+xml"
+		case strings.HasSuffix(name, ".css"):
+			mime = "text/css"
+		}
+		return utils.RemoteRessource{Content: bytes.NewReader(b), RedirectedUrl: u, Filename: name, MimeType: mime}, nil
+	}
 	if b, ok := resources()[name]; ok {
 		return utils.RemoteRessource{Content: bytes.NewReader(b), RedirectedUrl: u, Filename: name}, nil
 	}
 	return utils.RemoteRessource{}, os.ErrNotExist
+}
+
+// docFiles: the files of the document being rendered (one document per worker call)
+var docFiles map[string][]byte
+
+func setDocFiles(d *Doc) {
+	docFiles = map[string][]byte{}
+	for _, f := range d.Files {
+		docFiles[f.Name] = []byte(f.Content())
+	}
 }
 
 var fontCache = map[string]text.FontConfiguration{}
@@ -264,6 +284,7 @@ func topNodes(src string) []TopNode {
 // parseDoc parses the document and its user style sheets and records the root
 // discovery observables
 func parseDoc(d *Doc, o *Outcome) (*tree.HTML, []tree.CSS, bool) {
+	setDocFiles(d)
 	src := d.HTML()
 	o.Top = topNodes(src)
 	o.RootIdx = -1
